@@ -1,7 +1,8 @@
 // Conformance driver for C10 (optimisers of src/Bpp/Numeric/Function).
 //
 // Every scenario builds a harness objective (random SPD quadratic, condition
-// number <= 1e3, or a smooth strictly convex non-quadratic, both with a known
+// number <= 1e3, or a smooth strictly convex non-quadratic - sqrt type, quadratic+quartic, log-cosh and
+// exp type of scaled linear forms -, all with a known
 // minimiser m and analytic first/second derivatives), a start, per-coordinate
 // interval constraints containing start and minimiser, a constraint policy, a
 // stopping tolerance 1e-4..1e-10 and an evaluation budget, and drives one of
@@ -77,7 +78,7 @@ class HFn : public virtual bpp::SecondOrderDerivable, public bpp::AbstractParame
 {
 public:
   size_t n;
-  int kind; // 0 quadratic, 1 sqrt-type convex, 2 quadratic + quartic
+  int kind; // 0 quadratic, 1 sqrt-type convex, 2 quadratic + quartic, 3 log-cosh of scaled linear forms, 4 exp(t) - t - 1 of them
   vector<vector<double>> A; // SPD (kind 0, 2) or rows q_k (kind 1)
   vector<double> w; // weights (kind 1) / quartic coefficients (kind 2)
   vector<double> m; // minimiser
@@ -95,6 +96,26 @@ public:
     for (size_t i = 0; i < n; ++i) addParameter_(new bpp::Parameter("x" + std::to_string(i), 0.));
   }
   HFn* clone() const override { return new HFn(*this); }
+
+  // one term of the non-quadratic families as a function of the linear form t: value, first and second derivative
+  static double lcosh(double t)
+  {
+    t = std::abs(t);
+    return t + std::log1p(std::exp(-2. * t)) - 0.6931471805599453;
+  }
+  double term(double t) const { return kind == 1 ? std::sqrt(1. + t * t) - 1. : kind == 3 ? lcosh(t) : std::exp(t) - t - 1.; }
+  double term1(double t) const { return kind == 1 ? t / std::sqrt(1. + t * t) : kind == 3 ? std::tanh(t) : std::exp(t) - 1.; }
+  double term2(double t) const
+  {
+    if (kind == 1) return 1. / std::pow(1. + t * t, 1.5);
+    if (kind == 3)
+    {
+      double th = std::tanh(t);
+      double c2 = 1. / std::cosh(t);
+      return (std::abs(t) < 15.) ? 1. - th * th : c2 * c2; // sech^2 without cancellation in the tails
+    }
+    return std::exp(t);
+  }
 
   vector<double> point() const
   {
@@ -124,7 +145,7 @@ public:
       {
         double t = 0;
         for (size_t j = 0; j < n; ++j) t += A[k][j] * y[j];
-        s += w[k] * (std::sqrt(1. + t * t) - 1.);
+        s += w[k] * term(t);
       }
       for (size_t i = 0; i < n; ++i) s += 0.5 * mu * y[i] * y[i];
     }
@@ -146,7 +167,7 @@ public:
       {
         double t = 0;
         for (size_t j = 0; j < n; ++j) t += A[k][j] * y[j];
-        g += w[k] * t / std::sqrt(1. + t * t) * A[k][i];
+        g += w[k] * term1(t) * A[k][i];
       }
       g += mu * y[i];
     }
@@ -168,7 +189,7 @@ public:
       {
         double t = 0;
         for (size_t j = 0; j < n; ++j) t += A[k][j] * y[j];
-        h += w[k] * A[k][i] * A[k][i] / std::pow(1. + t * t, 1.5);
+        h += w[k] * A[k][i] * A[k][i] * term2(t);
       }
       h += mu;
     }
@@ -202,7 +223,7 @@ public:
   double getSecondOrderDerivative(const string& v1, const string& v2) const override
   {
     if (v1 == v2) return hess(point(), idx(v1));
-    return (kind == 1) ? 0. : A[idx(v1)][idx(v2)];
+    return (kind == 0 || kind == 2) ? A[idx(v1)][idx(v2)] : 0.;
   }
   // silent placement of the objective (harness only)
   void place(const vector<double>& x)
@@ -450,6 +471,21 @@ static void makeObjective(Rng& g, HFn& f, int kind)
     if (kind == 2)
       for (size_t i = 0; i < n; ++i) f.w[i] = logUniform(g, 0.01, 1.);
   }
+  else if (kind == 3 || kind == 4)
+  {
+    // n independent linear forms (orthonormal or the axes) with their own scale factors: strictly convex,
+    // curvature vanishing (log-cosh) or exploding (exp) away from the minimiser; no quadratic term
+    vector<vector<double>> q = g.coin() ? vector<vector<double>>() : randomOrtho(g, n);
+    f.A.assign(n, vector<double>(n, 0.));
+    f.w.assign(n, 0.);
+    for (size_t k = 0; k < n; ++k)
+    {
+      double sc = kind == 3 ? logUniform(g, 0.3, 5.) : (g.coin() ? 1. : -1.) * logUniform(g, 0.2, 1.5);
+      for (size_t j = 0; j < n; ++j) f.A[k][j] = sc * (q.empty() ? (j == k ? 1. : 0.) : q[k][j]);
+      f.w[k] = logUniform(g, 0.3, 3.);
+    }
+    f.mu = 0.;
+  }
   else
   {
     size_t K = n + g.below(3);
@@ -468,6 +504,7 @@ static void makeObjective(Rng& g, HFn& f, int kind)
 static const char* OPTS[] = {"Bfgs", "ConjugateGradient", "Powell", "DownhillSimplex", "Simple", "SimpleNewton",
                              "Brent", "GoldenSection", "Newton1D", "NewtonBacktrack", "Meta"};
 static const int NOPT = 11;
+static const char* KINDS[] = {"quad", "cvx1", "cvx2", "lcosh", "expo"};
 
 struct Stats
 {
@@ -511,7 +548,16 @@ public:
   {
     bool oneD = (opt == "Brent" || opt == "GoldenSection" || opt == "Newton1D");
     size_t n = oneD ? 1 : 1 + g.below(6);
-    int kind = quadOnly ? 0 : (g.chance(3, 5) ? 0 : (g.coin() ? 1 : 2));
+    // objective family: quadratic half of the time; the Newton-type optimisers see the families whose
+    // curvature degenerates far from the minimiser more often (their step-halving give-up paths)
+    int kind = 0;
+    if (!quadOnly)
+    {
+      size_t u = g.below(100);
+      bool newton = (opt == "SimpleNewton" || opt == "Newton1D");
+      if (newton) kind = u < 40 ? 0 : u < 50 ? 1 : u < 60 ? 2 : u < 85 ? 3 : 4;
+      else kind = u < 52 ? 0 : u < 64 ? 1 : u < 76 ? 2 : u < 88 ? 3 : 4;
+    }
     auto f = std::make_shared<HFn>(n);
     makeObjective(g, *f, kind);
     Scenario sc;
@@ -567,7 +613,14 @@ public:
     string cfg;
     f->sink = &sc.sink;
     f->cap = 60 * maxEval + 20000;
-    f->place(start);
+    // where the objective sits when init() is called: at the start (what most code does), at its minimiser
+    // (as a previous run would have left it) or anywhere; the start is what init() is given
+    int fat = static_cast<int>(g.below(10));
+    vector<double> sit = start;
+    if (fat >= 4 && fat < 7) sit = f->m;
+    else if (fat >= 7)
+      for (size_t i = 0; i < n; ++i) sit[i] = f->m[i] + (g.unit() * 2. - 1.) * 5.;
+    f->place(sit);
 
     bpp::ParameterList pl;
     for (size_t i = 0; i < n; ++i)
@@ -683,8 +736,8 @@ public:
     // ---- Reset (written immediately: a hang must stay attributable)
     {
       Obj o;
-      o.kv("e", "Reset").kv("opt", opt).kv("dim", n).kv("kind", kind == 0 ? "quad" : kind == 1 ? "cvx1" : "cvx2");
-      o.kv("pol", pol).kv("max", maxEval).kv("tk", tk).kv("inact", inactive).kv("sc", id).kv("cfg", cfg).kv("hist", hist).kv("kap", static_cast<long>(f->kappa + 0.5));
+      o.kv("e", "Reset").kv("opt", opt).kv("dim", n).kv("kind", KINDS[kind]);
+      o.kv("pol", pol).kv("max", maxEval).kv("tk", tk).kv("inact", inactive).kv("sc", id).kv("cfg", cfg).kv("hist", hist).kv("kap", static_cast<long>(f->kappa + 0.5)).kv("fat", fat < 4 ? "start" : fat < 7 ? "min" : "else");
       Arr b;
       for (size_t i = 0; i < n; ++i) b.add(Arr().add(bx.has[i] != 0).add(bx.il[i] != 0).add(bx.iu[i] != 0));
       o.kv("box", b);
@@ -755,7 +808,7 @@ public:
       bpp::ParameterList q = ipl;
       if (opt != "NewtonBacktrack")
         for (size_t i = 0; i < n; ++i) q[i].setValue(from[i]);
-      f->place(from);
+      // the objective stays wherever the history left it
       sc.add(Ev("InitBegin").r("f0", f->evalAt(from)).iv("sf", bx.codes(from)));
       string r = guarded([&]() { o->init(q); });
       if (r == "cap")
@@ -888,7 +941,7 @@ public:
   void runBracket(long id)
   {
     auto f = std::make_shared<HFn>(1);
-    int kind = g.chance(1, 2) ? 0 : (g.coin() ? 1 : 2);
+    int kind = g.chance(1, 2) ? 0 : 1 + static_cast<int>(g.below(4));
     makeObjective(g, *f, kind);
     Scenario sc;
     Box& bx = sc.box;
@@ -908,7 +961,7 @@ public:
     unsigned nint = 2 + static_cast<unsigned>(g.below(20));
     {
       Obj o;
-      o.kv("e", "Reset").kv("opt", inward ? "BracketInward" : "BracketOutward").kv("dim", 1).kv("kind", kind == 0 ? "quad" : kind == 1 ? "cvx1" : "cvx2");
+      o.kv("e", "Reset").kv("opt", inward ? "BracketInward" : "BracketOutward").kv("dim", 1).kv("kind", KINDS[kind]);
       o.kv("pol", constrained ? "auto" : "ignore").kv("max", 0).kv("tk", 0).kv("inact", true).kv("sc", id);
       o.kv("box", Arr().add(Arr().add(bx.has[0] != 0).add(bx.il[0] != 0).add(bx.iu[0] != 0)));
       tracer().emit(o);
